@@ -69,6 +69,12 @@ SplitAgrees ==
 SplitEnumBounded ==
   Is("split") /\ (\A i \in 1..Len(R.ranges) : RangeWF(R.ranges[i])) =>
      \A i \in 1..Len(R.ranges) : EnumWithin(R.ranges[i][1], R.ranges[i][2], 2 * B + BB)
+(* the property-level form: whatever the exact shape of the ranges, no walk *)
+(* is longer than about a million steps (the tight bound above only says    *)
+(* that the ranges have the shape the transcription produces)               *)
+SplitEnumTerminates ==
+  Is("split") /\ (\A i \in 1..Len(R.ranges) : RangeWF(R.ranges[i])) =>
+     \A i \in 1..Len(R.ranges) : EnumWithin(R.ranges[i][1], R.ranges[i][2], 1048576)
 
 -----------------------------------------------------------------------------
 (* float <-> sortable int64, prefix coding *)
